@@ -228,6 +228,9 @@ fn run_one(id: &str, views: u32, s: &Script) -> CaseResult {
     exec::run_forked(views, CASE_TIMEOUT_S, || {
         let mut cfg = props::world_cfg(&cfg_id, s.mode);
         cfg.shallow_clone = s.layout_seed & 1 == 1;
+        // one script in eight injects a panic into the payload's Clone (make_mut)
+        cfg.clone_panics = match (s.layout_seed >> 8) & 15 { 0 => 1, 1 => 2, _ => 0 };
+        crate::exec::set_trace_logging(s.layout_seed & 2 == 2);
         interp::run_script(s, cfg);
     })
 }
